@@ -193,7 +193,7 @@ pub fn run(run: &Run) {
          criterion present; distinct by the whole case",
     );
     run.regressions(&replay);
-    run.random("filter", run.cases(500_000, 8_000_000), 0.5, strategy, check);
+    run.random("filter", run.cases(1_000_000, 12_000_000), 0.5, strategy, check);
 }
 
 pub fn replay(_section: &str, case: &Json) -> Option<CheckResult> {
